@@ -1942,6 +1942,7 @@ class Wallet(object):
             prevkey = self.session.query(DbKey).\
                 filter_by(wallet_id=self.wallet_id, purpose=purpose, network_name=network, account_id=account_id,
                           witness_type=witness_type, change=change, cosigner_id=cosigner_id, depth=self.key_depth).\
+                filter(DbKey.key_type != 'single').\
                 order_by(DbKey.address_index.desc()).first()
             if prevkey:
                 address_index = prevkey.address_index + 1
